@@ -190,7 +190,12 @@ def replay_grid(ctx, hyruns, d, idx):
 
 
 def grid_spec_to_code(ctx, hyruns):
-    res = ctx.tlc("OptionGridDump", "MC_OptionGrid_%s.cfg" % ctx.tier, timeout=3000, heap="6g", coverage=True)
+    for cfg in (["quick"] if ctx.tier == "quick" else ["thorough", "thorough2"]):
+        _grid_spec_to_code(ctx, hyruns, cfg)
+
+
+def _grid_spec_to_code(ctx, hyruns, cfg):
+    res = ctx.tlc("OptionGridDump", "MC_OptionGrid_%s.cfg" % cfg, timeout=3000, heap="6g", coverage=True)
     ctx.require_actions(res, ["Build", "SetKeyName", "ResetKeyNames", "ToDict", "FromDict"], "OptionGrid")
     if res.violated:
         raise Machinery("OptionGrid.tla violates its contract: %s" % res.violated)
@@ -208,7 +213,7 @@ def grid_spec_to_code(ctx, hyruns):
     if n < 1000:
         raise Machinery("OptionGrid generator: %d histories" % n)
     ctx.traces += n
-    ctx.part("option_grid_spec_to_code", histories=n, states=res.distinct, generated=res.generated)
+    ctx.part("option_grid_spec_to_code_" + cfg, histories=n, states=res.distinct, generated=res.generated)
 
 
 def grid_code_to_spec(ctx, hyruns, ncases):
